@@ -193,6 +193,50 @@ def transform_tree(source, how):
             def visit_Lambda(self, node):
                 return node
         tree = R().visit(tree)
+    elif how == 'COMPVARS':
+        # every comprehension variable gets another name (comprehensions are their own scope)
+        for comp in [n for n in ast.walk(tree) if isinstance(n, (ast.ListComp, ast.SetComp, ast.GeneratorExp, ast.DictComp))]:
+            bound = {x.id for g in comp.generators for x in ast.walk(g.target) if isinstance(x, ast.Name)}
+            inner_lambda = any(isinstance(x, ast.Lambda) for x in ast.walk(comp))
+            if inner_lambda:
+                continue
+            nested_bound = {x.id for c2 in ast.walk(comp) if c2 is not comp and isinstance(c2, (ast.ListComp, ast.SetComp, ast.GeneratorExp, ast.DictComp))
+                            for g in c2.generators for x in ast.walk(g.target) if isinstance(x, ast.Name)}
+            todo = bound - nested_bound
+            first_iter_names = {x.id for x in ast.walk(comp.generators[0].iter) if isinstance(x, ast.Name)}
+            todo -= first_iter_names          # the first iterable is evaluated in the enclosing scope: keep clashes out
+            for x in ast.walk(comp):
+                if isinstance(x, ast.Name) and x.id in todo:
+                    x.id = x.id + '_c'
+    elif how == 'HOISTARG':
+        # v = outer(inner(..), ..)  ->  _h = inner(..); v = outer(_h, ..)     (statement level, first positional argument only)
+        class H(ast.NodeTransformer):
+            def __init__(self):
+                self.k = 0
+
+            def hoist(self, st, call):
+                if isinstance(call, ast.Call) and call.args and isinstance(call.args[0], ast.Call) and not isinstance(call.func, ast.Lambda) \
+                        and not any(isinstance(x, (ast.Lambda, ast.GeneratorExp, ast.ListComp, ast.Starred)) for x in ast.walk(call.args[0])) \
+                        and isinstance(call.func, (ast.Name, ast.Attribute)) and not any(isinstance(x, ast.Call) for x in ast.walk(call.func)):
+                    self.k += 1
+                    nm = '_h%d' % self.k
+                    pre = ast.Assign(targets=[ast.Name(id=nm, ctx=ast.Store())], value=call.args[0], lineno=st.lineno, col_offset=st.col_offset)
+                    call.args[0] = ast.Name(id=nm, ctx=ast.Load())
+                    return [pre, st]
+                return st
+
+            def visit_Assign(self, st):
+                return self.hoist(st, st.value)
+
+            def visit_Return(self, st):
+                return self.hoist(st, st.value) if st.value is not None else st
+
+            def visit_Expr(self, st):
+                return self.hoist(st, st.value)
+
+            def visit_Lambda(self, node):
+                return node
+        tree = H().visit(tree)
     ast.fix_missing_locations(tree)
     return ast.unparse(tree) + '\n'
 
@@ -218,7 +262,7 @@ def apply(repo, m):
             if repo.exists(rel):
                 overlay[rel] = rename_locals(repo.source(rel))
         return overlay
-    if m['edits'] in ('FLIPCMP', 'SWAPIF', 'RETTMP'):
+    if m['edits'] in ('FLIPCMP', 'SWAPIF', 'RETTMP', 'COMPVARS', 'HOISTARG'):
         from ..srcmodel import MBI_FILES, MECH_FILES
         for rel in MBI_FILES + MECH_FILES:
             if repo.exists(rel):
